@@ -35,7 +35,7 @@ LEVEL_NOTE = ("Trusted: Coq 8.16.1 kernel incl. vm_compute; standard-library rea
               "hand-written model's fidelity to geomdl/linalg.py is sampled by the correspondence check (1e-9 tolerance; call sequences "
               "of length <= 6); sqrt modelled by the squared norm; lru_cache modelled as an LRU association list")
 # functions of the numerical core this property rests on that are also tied by the translator (tie theorems: Proofs/GenTie*.v, restated in Props/)
-TRANSLATED = ["_linalg.doolittle", "linalg.vector_cross", "linalg.vector_dot", "linalg.vector_multiply", "linalg.vector_sum", "linalg.matrix_transpose", "linalg.matrix_multiply", "linalg.lu_decomposition", "linalg.forward_substitution", "linalg.backward_substitution", "linalg.lu_solve", "linalg.linspace", "linalg.matrix_identity", "linalg.matrix_pivot", "linalg.matrix_inverse", "linalg.matrix_determinant", "linalg.lu_factor", "linalg.binomial_coefficient"]
+TRANSLATED = ["_linalg.doolittle", "linalg.vector_cross", "linalg.vector_dot", "linalg.vector_multiply", "linalg.vector_sum", "linalg.matrix_transpose", "linalg.matrix_multiply", "linalg.lu_decomposition", "linalg.forward_substitution", "linalg.backward_substitution", "linalg.lu_solve", "linalg.linspace", "linalg.matrix_identity", "linalg.matrix_pivot", "linalg.matrix_inverse", "linalg.matrix_determinant", "linalg.lu_factor", "linalg.binomial_coefficient", "linalg.vector_generate", "linalg.point_translate", "linalg.point_mid", "linalg.vector_magnitude", "linalg.point_distance", "linalg.vector_normalize", "linalg.vector_is_zero", "linalg.vector_mean", "linalg.matrix_scalar", "linalg.frange"]
 TECHNIQUE = "machine-checked proof in Coq over a hand-written Gallina model + model/implementation correspondence check evaluated by coqc (vm_compute) + exact Fraction oracles (Gaussian elimination, Leibniz determinant)"
 
 
